@@ -3,6 +3,7 @@
 package c04
 
 import (
+	"context"
 	"fmt"
 	"testing"
 	"testing/synctest"
@@ -20,13 +21,14 @@ import (
 // counts them alike: ejected only after `threshold` of them, and once that many occur in a row.
 func TestC04FailureKinds(t *testing.T) {
 	sub := lab.Sub("failure-kinds", "rapid histories of 4..30 sequential requests against the real balancer in virtual time; before each request every backend is given a drawn behaviour from "+
-		"{good, 4xx, 5xx, unreachable, interim-then-5xx, interim-then-good, hang: accepts the request and never answers, so that the exchange ends when server.timeouts.handler (1-3 s) fires}; "+
+		"{good, 4xx, 5xx, unreachable, interim-then-5xx, interim-then-good, hang: accepts the request and never answers, so that the exchange ends when server.timeouts.handler (1-3 s) fires}; in one step of six the backend streams a 200 and the CLIENT hangs up while the body is relayed (an aborted exchange that is not a failed response: it must not count); "+
 		"5 strategies x threshold 1-4 x window 2-5 s x 1-3 backends, passive checks on, active checks off or on with a 600 s interval; after each response the serving backend's reported health "+
 		"(ListBackends, /health, /metrics) is compared with the monitor: R1 not ejected before `threshold` failed responses (cumulative count since the last ejection), R2 ejected once `threshold` failed responses occurred in a row, "+
 		"R4 not served inside its window, R6 not reported healthy inside its window; a hang must be answered with a 5xx status within handler timeout + 100 ms; "+
 		"non-trivial = an ejection whose streak contains a handler-timeout failure")
 	sub.NontrivialFloor(0.15)
 	sub.Floor("ejection", 0.5)
+	sub.Floor("client-hung-up-mid-body", 0.5)
 	lab.Check(t, sub, 1200, 30000, func(rt *rapid.T) {
 		c := hcfg{Strategy: rapid.SampledFrom(lab.Strategies).Draw(rt, "strategy"), N: rapid.IntRange(1, 3).Draw(rt, "n"),
 			Threshold: rapid.IntRange(1, 4).Draw(rt, "threshold"), WindowS: rapid.IntRange(2, 5).Draw(rt, "window"), Passive: true,
@@ -36,7 +38,7 @@ func TestC04FailureKinds(t *testing.T) {
 		kinds := []lab.Behaviour{lab.Good, lab.Status4xx, lab.Status5xx, lab.Unreachable, lab.Interim5xx, lab.InterimGood, lab.Park, lab.Park}
 		var viol string
 		var hist []string
-		ejections, timeoutEjections := 0, 0
+		ejections, timeoutEjections, nClientAborts := 0, 0, 0
 		fn := lab.NewFakeNet()
 		fn.WithDefaultTransport(func() {
 			rapid.SyncTest(rt, func(rt *rapid.T) {
@@ -80,20 +82,43 @@ func TestC04FailureKinds(t *testing.T) {
 						beh[i] = rapid.SampledFrom(kinds).Draw(rt, "behaviour")
 						fn.Set(lab.BackendHost(i), beh[i])
 					}
+					// one step in six: every backend streams a 200 whose body goes quiet after its first
+					// part, and the CLIENT hangs up while it is being relayed - an aborted exchange that
+					// is not a failed response of the backend
+					clientAbort := rapid.IntRange(0, 5).Draw(rt, "client_abort") == 0
+					if clientAbort {
+						for i := range beh {
+							beh[i] = lab.ParkMidBody
+							fn.Set(lab.BackendHost(i), beh[i])
+						}
+					}
 					before := fn.Arrivals()
 					start := time.Now()
 					done := make(chan int, 1)
 					client := clientAddr(rapid.IntRange(0, 30).Draw(rt, "client"))
+					req := lab.Request("GET", "/k", client, nil)
+					ctx, hangUp := context.WithCancel(req.Context())
+					req = req.WithContext(ctx)
 					go func() {
-						st, _, _, _ := lab.Serve(lb, lab.Request("GET", "/k", client, nil))
+						st, _, _, _ := lab.Serve(lb, req)
 						done <- st
 					}()
 					synctest.Wait()
 					var status int
 					hung := false
+					if clientAbort {
+						hangUp()
+						synctest.Wait()
+					}
 					select {
 					case status = <-done:
 					default:
+						if clientAbort {
+							viol = "the exchange of a client that hung up while the response body was being relayed did not end"
+							fn.ReleaseAll()
+							<-done
+							break
+						}
 						// parked in a hanging backend: the handler timeout must end the exchange
 						hung = true
 						time.Sleep(time.Duration(H)*time.Second + 100*time.Millisecond)
@@ -109,6 +134,7 @@ func TestC04FailureKinds(t *testing.T) {
 					if viol != "" {
 						break
 					}
+					hangUp()
 					if fn.Arrivals() == before {
 						hist = append(hist, fmt.Sprintf("req->none:%d", status))
 						continue // not dispatched (no eligible backend): C02's subject
@@ -119,7 +145,12 @@ func TestC04FailureKinds(t *testing.T) {
 					}
 					host := fn.HostAt(before)
 					i := indexOfHost(host, c.N)
-					hist = append(hist, fmt.Sprintf("req->b%d(%v):%d", i, beh[i], status))
+					if clientAbort {
+						hist = append(hist, fmt.Sprintf("req->b%d(200 streamed, client hung up mid-body)", i))
+						nClientAborts++
+					} else {
+						hist = append(hist, fmt.Sprintf("req->b%d(%v):%d", i, beh[i], status))
+					}
 					if hung && status < 500 {
 						viol = fmt.Sprintf("the exchange with a backend that never answered ended with status %d", status)
 						break
@@ -164,6 +195,9 @@ func TestC04FailureKinds(t *testing.T) {
 		}
 		if timeoutEjections > 0 {
 			labels = append(labels, "ejection-with-handler-timeout-failure")
+		}
+		if nClientAborts > 0 {
+			labels = append(labels, "client-hung-up-mid-body")
 		}
 		sub.Case(map[string]any{"cfg": c, "handler_timeout_s": H, "history": fmt.Sprint(hist)}, timeoutEjections > 0, labels...)
 		if viol != "" {
